@@ -34,6 +34,7 @@ ASSUMPTIONS = [
     "bit flips are not injected (undetectable without checksums; the property names cuts and failed/short writes)",
     "readers handed a file object get a first raw read of >= 64 bytes so that C11's single-shot-peek finding is not re-reported here",
     "value domain restricted to types whose round-trip identity holds on the pinned tree (C01 is not decided here)",
+    "descriptor pairs with coinciding identifiers are generated for every mode except the continue policy (a refused descriptor frame of one twin cannot be noticed by any reader of this format)",
 ]
 EXPECTED_PROBES = [
     "cut-in-header-len", "cut-in-header-body", "cut-in-desc-len", "cut-in-desc-body", "cut-in-rec-len", "cut-in-rec-body",
@@ -42,6 +43,7 @@ EXPECTED_PROBES = [
 ]  # fmt: skip
 
 TYPES = ["string", "varint", "uint32", "boolean", "float", "bytes", "datetime", "string[]", "varint[]", "path", "net.ipaddress", "digest"]
+# (stringlist only occurs through the identifier-twin pair)
 WRITER_STACKS = ["raw", "buf", "gz", "gzbuf", "path", "pathgz"]
 READER_STACKS = ["bytesio", "bufreader", "fileobj", "path", "neutral", "rawobj"]
 
@@ -55,7 +57,7 @@ def wall_cap(tier):
 
 
 # -- generation ---------------------------------------------------------------------------------
-def gen_pool(rng, big):
+def gen_pool(rng, big, allow_identifier_twins=True):
     pool = {}
     n = rng.choice([1, 1, 2, 2, 3, 4])
     for i in range(n):
@@ -73,6 +75,11 @@ def gen_pool(rng, big):
             f2 = [[t, n] for t, n in fields[:-1]] + [["string", fields[-1][1]]]
         if f2 != fields:
             pool["D9"] = [name, f2]
+    elif rng.random() < 0.25 and allow_identifier_twins:
+        # ... or an identifier twin: another descriptor under the same (name, 32-bit hash)
+        nm, fa, fb = gen.concat_ambiguity_pairs()[rng.randrange(2)]
+        pool["D0"] = [nm, fa]
+        pool["D9"] = [nm, fb]
     if rng.random() < 0.35:
         # a holder whose child type occurs only nested
         pool["C0"] = ["nested/child", gen.gen_fields(rng, ["string", "varint", "boolean"], 1, 2)]
@@ -96,8 +103,6 @@ def gen_values(rng, pool, key, big):
 def generate(rng, tier, index):
     thorough = tier != "quick"
     big = rng.random() < (0.25 if thorough else 0.08)
-    pool = gen_pool(rng, big)
-    keys = [k for k in sorted(pool) if k != "C0"]
     mode = rng.choice(["cuts", "cuts", "cuts", "write_faults", "write_faults", "write_faults", "crash", "faultfree"])
     layer = "raw"
     if mode == "write_faults":
@@ -113,6 +118,10 @@ def generate(rng, tier, index):
     else:
         stack = rng.choice(WRITER_STACKS)
         policy = "fail-stop"
+    # identifier twins are kept out of continue-policy runs: when the descriptor frame of one twin is refused and
+    # the caller goes on, the reader cannot tell its records from the other twin's (a limit of 32-bit identifiers)
+    pool = gen_pool(rng, big, allow_identifier_twins=(policy != "continue"))
+    keys = [k for k in sorted(pool) if k != "C0"]
     n_rec = rng.choice([0, 1, 2, 3, 4, 6, 9, 14] if not thorough else [0, 1, 2, 3, 5, 8, 13, 21, 40])
     flush_every = rng.choice([0, 0, 1, 2, 3])
     ops = []
